@@ -104,6 +104,8 @@ extern void (*w_on_fork_child)(void);
 void wrap_init(void);
 void wrap_reset_case(void);
 int wrap_add_fault(int side, int fn, int k, int err);
+int wrap_add_fault_rel(int fn, int k, int err);
+void wrap_heap_adopt(void *p);
 int wrap_fn_by_name(const char *name);
 int wrap_child_state(int pid);  // 0 unknown, 1 live, 2 reaped
 // ledger queries (parent side)
